@@ -48,13 +48,14 @@ var chainIDs = []*big.Int{
 }
 
 func genChainID(t *rapid.T, label string) *big.Int {
-	if rapid.IntRange(0, 9).Draw(t, label+"Kind") == 0 {
+	switch rapid.IntRange(0, 11).Draw(t, label+"Kind") {
+	case 0:
 		b := rapid.SliceOfN(rapid.Byte(), 1, 12).Draw(t, label+"Bytes")
-		c := new(big.Int).SetBytes(b)
-		if c.Sign() == 0 {
-			c.SetInt64(3)
-		}
-		return c
+		return new(big.Int).SetBytes(b)
+	case 1:
+		// zero: the value the signing helpers treat as "chain ID not specified" - a transaction
+		// carrying it must still not be attributed to its signer by any other chain's signer
+		return new(big.Int)
 	}
 	return new(big.Int).Set(rapid.SampledFrom(chainIDs).Draw(t, label))
 }
@@ -71,12 +72,19 @@ func otherChainID(t *rapid.T, c *big.Int, label string) *big.Int {
 	if c.Cmp(big1) > 0 {
 		cands = append(cands, new(big.Int).Sub(c, big1))
 	}
+	if c.Sign() != 0 {
+		cands = append(cands, new(big.Int)) // the "unspecified" chain ID
+	}
 	for _, o := range chainIDs {
+		cands = append(cands, new(big.Int).Set(o))
+	}
+	var diff []*big.Int
+	for _, o := range cands {
 		if o.Cmp(c) != 0 {
-			cands = append(cands, new(big.Int).Set(o))
+			diff = append(diff, o)
 		}
 	}
-	return rapid.SampledFrom(cands).Draw(t, label)
+	return rapid.SampledFrom(diff).Draw(t, label)
 }
 
 // scalarFromBytes maps 32 bytes onto [1, N-1].
